@@ -4,7 +4,8 @@ C11 — driver of the SyncList model for the `oracle` executable.
 Case format:
   header  `@ C11 list <ninit> T <call>… T <call>…`   (one `T` group per thread;
            calls: `u<int>` = Push(int), `o` = Pop(), `l` = Len(), `w` = PopWait(-1) (blocking:
-           Pop in a Gosched loop), `z` = PopWait(0) (one Pop); the list initially holds
+           Pop in a Gosched loop), `z` = PopWait(0) (one Pop), `t<k>` = PopWait(d>0) whose deadline is observed on
+           its k-th tick (k ≥ 1; the timer is an input); the list initially holds
            the values 1..ninit, pushed sequentially)
   op      `step <tid>`   thread <tid> performs its next ATOMIC access (followed by the
                           plain accesses up to its next atomic access);
@@ -64,13 +65,16 @@ def splitProgs (l : List String) : Option (List (List String)) :=
   let (p, gs) := splitAux l
   if p.isEmpty then some gs else none
 
-/-- The plain accesses that follow an atomic access of the same thread. -/
+/-- The plain accesses that follow an atomic access of the same thread, and the tick
+receive of a timed `PopWait` (`popTick`): under the scheduler's time shim a receive from the
+ticker never parks the goroutine, so the harness sees it together with the preceding
+atomic access; WHICH tick observes the deadline is the `ticks` input of `t<k>`. -/
 def plainRun (ord : Order) : Nat → State → Nat → Event → State × Event
   | 0, s, _, e => (s, e)
   | k + 1, s, i, e =>
     match s.threads[i]? with
     | some th =>
-      if th.pc.isPlain then
+      if th.pc.isPlain || th.pc == .popTick then
         let (s1, e1) := step ord s i
         plainRun ord k s1 i { e with ret := if e1.ret.isSome then e1.ret else e.ret }
       else (s, e)
